@@ -722,7 +722,7 @@ func (in *Interp) prepareCall(fr *frame, call *ssa.CallCommon) (fn Value, args [
 				return in.zero(res)
 			}}, nil
 		}
-		f := in.prog.LookupMethod(recv.t, call.Method.Pkg(), call.Method.Name())
+		f := in.findMethod(recv.t, call.Method.Pkg(), call.Method.Name())
 		if f == nil {
 			unsupported("method set for dynamic type %v does not contain %s", recv.t, call.Method)
 		}
@@ -932,7 +932,7 @@ func (in *Interp) panicMsg(v Value) string {
 		}
 		if i.t != nil {
 			// error values: try Error()
-			if m := in.prog.LookupMethod(i.t, nil, "Error"); m != nil {
+			if m := in.findMethod(i.t, nil, "Error"); m != nil {
 				defer func() { recover() }()
 				r := in.callSSA(nil, token.NoPos, m, []Value{i.v}, nil)
 				if s, ok := r.(Str); ok {
@@ -1302,4 +1302,13 @@ func (in *Interp) typeAssert(instr *ssa.TypeAssert, itf Iface) Value {
 		return Tuple{v, in.ts.Bool(ok)}
 	}
 	return v
+}
+
+// findMethod looks a method up in the method set of t; nil when absent.
+func (in *Interp) findMethod(t types.Type, pkg *types.Package, name string) *ssa.Function {
+	sel := in.prog.MethodSets.MethodSet(t).Lookup(pkg, name)
+	if sel == nil {
+		return nil
+	}
+	return in.prog.MethodValue(sel)
 }
